@@ -1185,3 +1185,140 @@ pub fn run_stateless(cfg: &TransportCfg, sc: &mut Sc) {
         }
     }
 }
+
+// ------------------------------------------------------------------ builder API: setters, generate_keypair
+
+/// Chains of setter calls (with repetitions and out-of-range psk positions) and `generate_keypair` on every resolver
+/// with scripted random streams. Oracles: C10 (no panic), C12 (first repeated parameter / position > 9 is reported),
+/// C18/C02 (generated pair is consistent: public key of the private key, right lengths, private key = the draw).
+pub fn gen_api(run: &mut Run, seed: u64, thorough: bool) {
+    let mut r = Rng64(seed ^ 0x617069);
+    let mut sc = Sc::new();
+    sc.ex.comment("builder setters");
+    for _ in 0..(if thorough { 600 } else { 120 }) {
+        let n = r.below(9);
+        let mut items: Vec<String> = vec![];
+        let mut seen_psk = [false; 10];
+        let (mut s, mut pro, mut rs) = (false, false, false);
+        let mut expect: Option<&str> = None;
+        for _ in 0..n {
+            let k = r.below(7);
+            let item = match k {
+                0 | 1 | 2 => {
+                    let loc = if r.chance(1, 5) { 10 + r.below(246) } else { r.below(10) };
+                    if expect.is_none() {
+                        if loc >= 10 {
+                            expect = Some("Init(ValidatePskPosition)");
+                        } else if seen_psk[loc] {
+                            expect = Some("Init(ParameterOverwrite)");
+                        } else {
+                            seen_psk[loc] = true;
+                        }
+                    }
+                    format!("psk:{loc}:{}", hex(&r.bytes(32)))
+                },
+                3 => {
+                    if expect.is_none() && s {
+                        expect = Some("Init(ParameterOverwrite)");
+                    }
+                    s = true;
+                    let l = [0usize, 1, 32, 33][r.below(4)];
+                    format!("s:{}", if l == 0 { "-".to_string() } else { hex(&r.bytes(l)) })
+                },
+                4 => format!("e:{}", hex(&r.bytes(32))),
+                5 => {
+                    if expect.is_none() && pro {
+                        expect = Some("Init(ParameterOverwrite)");
+                    }
+                    pro = true;
+                    let l = r.below(5);
+                    format!("pro:{}", if l == 0 { "-".to_string() } else { hex(&r.bytes(l)) })
+                },
+                _ => {
+                    if expect.is_none() && rs {
+                        expect = Some("Init(ParameterOverwrite)");
+                    }
+                    rs = true;
+                    format!("rs:{}", hex(&r.bytes(32)))
+                },
+            };
+            items.push(item);
+        }
+        let spec = if items.is_empty() { "-".to_string() } else { items.join(",") };
+        let o = sc.ex.setters(&spec);
+        sc.check_panic(&o, "builder setters");
+        sc.count("api.setters");
+        match (expect, &o) {
+            (None, Out::Ok(_)) => {},
+            (Some(e), Out::Err(got)) if got == e => {},
+            (exp, got) => sc.viol("C12", format!("setter chain `{spec}` gave {got:?}, expected {exp:?}")),
+        }
+    }
+    run.add("api", "builder setters".into(), sc);
+
+    let mut sc = Sc::new();
+    sc.ex.comment("generate_keypair");
+    let cases = [
+        ("toy", "Noise_NN_25519_ChaChaPoly_SHA256", 32usize, 32usize),
+        ("toy", "Noise_NN_448_ChaChaPoly_SHA256", 32, 56),
+        ("toy", "Noise_NN_P256_ChaChaPoly_SHA256", 32, 65),
+        ("default", "Noise_NN_25519_ChaChaPoly_SHA256", 32, 32),
+        ("default", "Noise_XX_P256_AESGCM_BLAKE2s", 32, 65),
+        ("fb(ring,default)", "Noise_NN_25519_AESGCM_SHA512", 32, 32),
+        ("fb(none,default)", "Noise_IK_25519_ChaChaPoly_BLAKE2b", 32, 32),
+        ("ring", "Noise_NN_25519_AESGCM_SHA512", 0, 0),          // ring has no DH: GetDhImpl
+        ("toy-norng", "Noise_NN_25519_ChaChaPoly_SHA256", 0, 0), // GetRngImpl
+        ("toy-nodh", "Noise_NN_25519_ChaChaPoly_SHA256", 0, 0),  // GetDhImpl
+        ("none", "Noise_NN_25519_ChaChaPoly_SHA256", 0, 0),
+    ];
+    for rep in 0..(if thorough { 12 } else { 3 }) {
+        for (res, name, priv_len, pub_len) in cases {
+            let mut rng = r.bytes(64);
+            if rep == 1 {
+                rng = vec![0xff; 64]; // not a valid P-256 scalar
+            }
+            if rep == 2 {
+                rng = r.bytes(7); // a short script: the scripted RNG pads with zeros
+            }
+            let o = sc.ex.genkey(res, name, &rng);
+            sc.count("api.genkey");
+            if o == Out::Panic {
+                if name.contains("P256") && res == "default" {
+                    sc.viol("C10", "panic in Builder::generate_keypair with use-p256 and a random draw that is not a valid P-256 scalar".into());
+                } else {
+                    sc.viol("C10", format!("panic in Builder::generate_keypair ({res}, {name})"));
+                }
+                continue;
+            }
+            match &o {
+                Out::Ok(both) => {
+                    if priv_len == 0 {
+                        sc.viol("C12", format!("generate_keypair succeeded on resolver {res} which lacks an rng or a dh"));
+                        continue;
+                    }
+                    if both.len() != priv_len + pub_len {
+                        sc.viol("C18", format!("generate_keypair ({res}, {name}): lengths {} != {priv_len}+{pub_len}", both.len()));
+                        continue;
+                    }
+                    let (sk, pk) = both.split_at(priv_len);
+                    let mut drawn = rng.clone();
+                    drawn.resize(priv_len.max(drawn.len()), 0);
+                    if sk != &drawn[..priv_len] {
+                        sc.viol("C06", format!("generate_keypair ({res}, {name}): the private key is not the random draw"));
+                    }
+                    if crate::gen::pub_of(res, name.split('_').nth(2).unwrap_or("25519"), sk).as_deref() != Some(pk) {
+                        sc.viol("C18", format!("generate_keypair ({res}, {name}): the public key is not the public key of the private key"));
+                        sc.viol("C02", format!("generate_keypair ({res}, {name}): inconsistent key pair"));
+                    }
+                },
+                Out::Err(e) => {
+                    if priv_len != 0 {
+                        sc.viol("C12", format!("generate_keypair failed on a complete resolver {res}: {e}"));
+                    }
+                },
+                _ => {},
+            }
+        }
+    }
+    run.add("api", "generate_keypair".into(), sc);
+}
